@@ -74,3 +74,41 @@ def census(P, fns):
                     elif any(name.endswith(x) for x in ("F2Dot14::from_f32", "Fixed::from_f64")) or re.search(r"f2dot14::\{impl#\d+\}::from_f(32|64)$|fixed::\{impl#\d+\}::from_f64$", name):
                         out.append(Site(fn, "fixedconv", name.split("::")[-3] + "::" + name.split("::")[-1], t["l"], bi, t))
     return out
+
+
+def run(P, M, tables):
+    findings, obl, samples = [], [], []
+    fns = value_path(P, M)
+    sites = [s for s in census(P, fns) if not (s.kind == "otround" and s.desc in ("f64->f64", "f32->f32"))]
+    table = {(e["fn"], e["kind"], e["desc"]): e for e in tables.get("e6_narrowing", {}).get("sites", [])}
+    grouped = defaultdict(list)
+    for s in sites:
+        grouped[(s.fn, s.kind, s.desc)].append(s)
+    used = set()
+    nb = nf = 0
+    for key, ss in sorted(grouped.items()):
+        e = table.get(key)
+        loc = P.site_loc(key[0], ss[0].line)
+        what = {"cast": "integer cast", "fcast": "float-to-int cast (saturating)", "arith": "narrow-integer arithmetic (panics in debug, wraps in release)",
+                "otround": "saturating ot_round conversion", "fixedconv": "saturating fixed-point conversion"}[key[1]]
+        if e is None or len(ss) > e.get("count", 1):
+            obl.append({"rule": "E6", "inst": f"{key[0]} {key[1]} {key[2]} x{len(ss)}", "ok": False})
+            findings.append({"rule": "E6", "key": f"E6|{key[0]}|{key[1]}|{key[2]}",
+                             "msg": f"{key[0]}: unaudited {what} {key[2]} ({len(ss)} site(s)" + (f", audited count {e['count']}" if e else "") + ") in the value path: a value that does not fit can wrap, be clamped or make debug and release builds disagree; guard it (try_into + error), prove the range, or audit it",
+                             "loc": loc, "detail": {"lines": [s.line for s in ss]}})
+            continue
+        used.add(key)
+        if e["verdict"] == "bounded":
+            nb += len(ss)
+            obl.append({"rule": "E6", "inst": f"{key[0]} {key[1]} {key[2]} x{len(ss)}: bounded ({e['reason'][:70]})", "ok": True})
+            if len(samples) < 6:
+                samples.append({"rule": "E6", "site": loc, "kind": key[1], "types": key[2], "verdict": "bounded: " + e["reason"]})
+        else:
+            nf += len(ss)
+            obl.append({"rule": "E6", "inst": f"{key[0]} {key[1]} {key[2]} x{len(ss)}: listed finding", "ok": False})
+            findings.append({"rule": "E6", "key": f"E6|{key[0]}|{key[1]}|{key[2]}",
+                             "msg": f"{key[0]}: {what} {key[2]} x{len(ss)}: {e['reason']}", "loc": loc, "detail": {"lines": [s.line for s in ss]}})
+    stale = sorted("|".join(k) for k in set(table) - used)
+    stats = {"value_path_functions": len(fns), "narrowing_sites": len(sites), "site_groups": len(grouped), "bounded_sites": nb,
+             "finding_sites": nf, "stale_table_entries": stale}
+    return findings, obl, samples, stats
